@@ -21,6 +21,7 @@ import re
 
 from lib import rsx
 from lib.unit import *
+from units.loop_common import sel
 
 BENCH = "src/benchmark/mod.rs"
 
@@ -322,6 +323,31 @@ mod verif_round {
         via = verif_rec_refs, gen = gen_s, benched = |i: &mut InS| { log(CALL, i.0); tally(16); i.0 as u32 });
     sample_harness!(zst_fast_path_two_threads, n = 1, threads = 2, shape = shape(true, false, true, false, true, true), count = |_i: &InZ| log(COUNT, ZST),
         via = verif_rec_refs, gen = gen_z, benched = |_i: &mut InZ| { log(CALL, ZST); tally(16); OutZ });
+    sample_harness!(zst_unit_in_drop_out_two_threads, n = 1, threads = 2, shape = shape(false, false, false, false, true, true), count = |_i: &()| log(COUNT, ZST),
+        via = verif_rec_values, gen = gen_unit, benched = |_: ()| { log(CALL, ZST); tally(16); OutZ });
+
+    // ------------------------------------------------------------------ C08: the barrier of a round is made for all its threads, in every mode
+    //#BEGIN BARRIER
+    static mut BARRIER_FOR: usize = 0;
+    fn stub_barrier_new(n: usize) -> Barrier { unsafe { BARRIER_FOR = n; std::mem::zeroed() } }
+    #[kani::proof]
+    #[kani::stub(std::sync::Barrier::new, stub_barrier_new)]
+    fn round_barrier_is_for_all_threads() {
+        let thread_count: usize = kani::any(); kani::assume(1 <= thread_count && thread_count <= 4);
+        let size: u32 = kani::any();
+        let mode = match kani::any::<u8>() % 3 { 0 => BenchMode::Test, 1 => BenchMode::Tune { sample_size: size }, _ => BenchMode::Collect { sample_size: size } };
+        unsafe { BARRIER_FOR = 0; }
+        let b = BenchContext::verif_barrier_for_round(thread_count - 1 == 0, thread_count, mode);
+        if watching(4) {
+            if thread_count > 1 {
+                assert!(b.is_some(), "[C08] a round on more than one thread has no barrier (its threads do not enter and leave the timed section together)");
+                assert!(unsafe { BARRIER_FOR } == thread_count, "[C08] the round's barrier is not made for exactly the round's threads");
+            }
+        }
+        kani::cover!(thread_count == 3 && matches!(mode, BenchMode::Tune { .. }));
+        std::mem::forget(b);
+    }
+    //#END
 
     // ------------------------------------------------------------------ the six real entry points: which thread count reaches the loop
     macro_rules! entry_harness {
@@ -366,6 +392,7 @@ HARNESSES = [
     ("refs_slots_two_threads", "closures of bench_refs on 2 threads run one after the other; sample size 1", "bounded", "quick"),
     ("inputs_only_two_threads", "inputs-only path on 2 threads run one after the other; sample size 1", "bounded", "c08"),
     ("zst_fast_path_two_threads", "zero-sized fast path on 2 threads run one after the other; sample size 1", "bounded", "c08"),
+    ("zst_unit_in_drop_out_two_threads", "zero-sized fast path with a unit input and a zero-sized Drop output on 2 threads; sample size 1", "bounded", "c08"),
     ("entry_bench", "Bencher::bench: thread count reaching the loop", "complete", "quick"),
     ("entry_bench_values", "Bencher::bench_values: thread count reaching the loop", "complete", "quick"),
     ("entry_bench_refs", "Bencher::bench_refs: thread count reaching the loop", "complete", "quick"),
@@ -375,20 +402,53 @@ HARNESSES = [
 ]
 
 
+def barrier_shim(S: Sources) -> str:
+    """The expression bound to `barrier` at the top of a round of bench_loop_threaded (found by bracket matching), text copied
+    into an associated function whose parameters are the locals it reads."""
+    f = S(BENCH).find_fn("bench_loop_threaded", impl=r"impl<'a> BenchContext<'a>")
+    body = f.body_text()
+    ms = list(re.finditer(r"let\s+barrier\s*=", body))
+    if len(ms) != 1:
+        raise rsx.LostAnchor(f"{BENCH}: bench_loop_threaded: `let barrier =` found {len(ms)} times, expected 1")
+    depth, i = 0, ms[0].end()
+    while i < len(body):
+        c = body[i]
+        if c in "({[": depth += 1
+        elif c in ")}]": depth -= 1
+        elif c == ";" and depth == 0: break
+        i += 1
+    expr = body[ms[0].end():i].strip()
+    return """
+#[cfg(kani)]
+impl<'a> BenchContext<'a> {
+    /// (text of bench_loop_threaded: the expression bound to `barrier` at the top of a round)
+    #[allow(unused_variables)]
+    fn verif_barrier_for_round(is_single_thread: bool, thread_count: usize, current_mode: BenchMode) -> Option<Barrier> {
+        let barrier = """ + expr + """;
+        barrier
+    }
+}
+"""
+
+
 def round_kani(S: Sources, errs: list, tag: str) -> KaniSpec:
     hook = guarded(lambda: hook_text(S), errs, None)
     if hook is None:
         return KaniSpec()
+    bshim = guarded(lambda: barrier_shim(S), errs, None) if tag == "C08" else None
     # C08 is about runs on more than one thread: only the two-thread harnesses; the two extra ones (tier "c08") run for C08 only
     rows = [(n, c, k, ("quick" if t == "c08" else t)) for n, c, k, t in HARNESSES if (tag == "C08") == ("two_threads" in n) or (tag != "C08" and t != "c08" and "two_threads" in n)]
     hs = [KaniHarness(f"verif_round::{n}", k, bound=("one sample per thread, sample size as stated, threads run one after the other" if k == "bounded" else ""),
                       covers=c, tier=t) for n, c, k, t in rows]
     for h in hs:
-        if "zst_fast_path" in h.name:
+        if "zst_" in h.name:
             h.ignore = [(r"memset destination region writeable @ std::ptr::write_bytes::<",
                          "Kani models MaybeUninit::<T>::zeroed() of a zero-sized T as a memset on a zero-sized object and flags the destination; no byte is written")]
     spec = KaniSpec(
-        injections={BENCH: hook + KANI.replace("@WATCH@", {"C01": "1", "C02": "2", "C08": "4"}[tag])}, harnesses=hs, patches=[PATCH],
+        injections={BENCH: hook + (bshim or "") + sel(KANI, {"BARRIER"} if bshim else set()).replace("@WATCH@", {"C01": "1", "C02": "2", "C08": "4"}[tag])},
+        harnesses=hs + ([KaniHarness("verif_round::round_barrier_is_for_all_threads", "bounded", bound="1 to 4 threads, every mode",
+                                     covers="bench_loop_threaded: the expression creating a round's barrier (text copied into a shim); Barrier::new replaced by a recorder")] if bshim else []),
+        patches=[PATCH],
         stubs_note=[
             "scratch-copy patch: bench_loop_threaded records self.thread_count and returns (cfg(kani)); used by the entry_* harnesses only; the loop itself is C03/C04/C19",
             "the pool is not used: the harness takes the sample of thread 0, then of thread 1, on the one Kani thread; no real concurrency is explored; the round fragment of the loop (per-input counter closure, RawSample assembly) is not covered",
